@@ -1,1 +1,14 @@
--- stub: no theorems of C01 yet
+import WmModel.Props.C01
+#print axioms Wm.Pipeline.no_loss_inv
+#print axioms Wm.Pipeline.ack_after_accept
+#print axioms Wm.Pipeline.publishOk_creates_downstream
+#print axioms Wm.Pipeline.published_only_via_publishOk
+#print axioms Wm.Pipeline.only_ack_removes
+#print axioms Wm.Pipeline.fault_redelivers
+#print axioms Wm.Pipeline.sink_sound
+#print axioms Wm.Pipeline.all_runs_finite
+#print axioms Wm.Pipeline.all_runs_finite_init
+#print axioms Wm.Pipeline.terminal_delivered
+#print axioms Wm.Pipeline.maximal_run_delivers
+#print axioms Wm.Pipeline.pipeline_refines
+#print axioms Wm.Pipeline.realEff_facts
